@@ -7,6 +7,17 @@ ROOT = os.path.dirname(os.path.dirname(os.path.abspath(__file__)))
 
 # property id -> dict(text, note, technique, design_ref) for claimed checks
 CLAIMED = {
+    'C16': dict(
+        text='Machine-checked: the Lean transcription of b64_pton/base64_decode, quoted_printable_decode(_buffer) and rfc2047_decode '
+             'equals independent reference decoders (RFC 4648 / QP / RFC 2047) for EVERY byte string (theorems C16_b64, C16_b64_len, '
+             'C16_qp, C16_rfc2047, C16_cstring_view, C16_alphabet over the alphabet table regenerated from decode.c); totality is carried by '
+             'the types. The transcription is tied to the working tree on every run by differential execution of the real functions '
+             '(ASan+UBSan harness that #includes decode.c) against the compiled model and against the reference, exhaustively over all '
+             'strings of length <= 4 (quick) / 5 (thorough) over 14 decoder-relevant symbols plus structured random encodings.',
+        note='Trusted: Lean kernel (axioms propext, Classical.choice, Quot.sound), the statement of Spec/Decode.lean, the correspondence run '
+             '(generator reach), gen_tables.py; ctype functions are ASCII (C / C.utf8 locale); out-of-bounds access of the C code is observed by '
+             'sanitizers in the harness, not proved (no index-level model yet).',
+        technique='Lean 4 proof of model = reference decoder + differential execution model/implementation'),
 }
 
 NOT_YET = {
@@ -25,7 +36,6 @@ NOT_YET = {
     'C13': 'check under construction',
     'C14': 'check under construction',
     'C15': 'check under construction',
-    'C16': 'check under construction (proofs being completed)',
     'C17': 'check under construction',
     'C18': 'check under construction',
 }
